@@ -181,7 +181,7 @@ def run(ctx):
 
     def model():
         try:
-            cfgs = ["MConn_q.cfg"] if quick else ["MConn_q.cfg", "MConn_t.cfg", "MConn_t2.cfg"]
+            cfgs = ["MConn_q.cfg", "MConn_q2.cfg"] if quick else ["MConn_q.cfg", "MConn_q2.cfg", "MConn_t3.cfg", "MConn_t2.cfg", "MConn_t.cfg"]
             mres["r"] = [(c, vlib.run_tlc(ctx, "MCMConn", c, timeout=3000, workers=4 if quick else max(4, vlib.NCPU // 2))) for c in cfgs]
         except Exception as e:
             mres["r"] = e
